@@ -1108,7 +1108,9 @@ class SourceFinder(object):
             else:
                 positions = [[kappa_sigma.shape[0] / 2],
                              [kappa_sigma.shape[1] / 2]]
-            xy = positions[0][0] + xmin, positions[1][0] + ymin
+            # +1 for the array index -> fits pixel convention (as for the
+            # components)
+            xy = positions[0][0] + xmin + 1, positions[1][0] + ymin + 1
             radec = global_data.wcshelper.pix2sky(xy)
             source.ra = radec[0]
 
